@@ -444,6 +444,70 @@ def cfg_unit(args):
     return {"fails": fails, "stats": stats}
 
 
+# ------------------------------------------------------------------ (c) getblock is a function of the address
+GB_STREAM = bytes.fromhex("90" "31c0" "eb00" "83c001" "40" "c3" "b844332211" "01d8")   # nop; xor; jmp +0; add; inc; ret; mov; add
+
+
+def getblock_unit(args):
+    """every history (up to the depth) of getblock(a) / cut the block last returned / insert it into a graph, on ONE
+    lsweep object: each getblock(a) must return the maximal run from a to the next control-flow instruction"""
+    depth, shard, nshards = args
+    import amoco
+    from amoco.sa import lsweep
+    from amoco import cfg
+    from amoco.arch.x86 import cpu_x86 as cpu
+    fails = []
+    stats = {"histories": 0, "checks": 0}
+    # independent partition
+    d = cpu.disassemble
+    starts, cf = [], []
+    a = 0
+    while a < len(GB_STREAM):
+        setattr(d, "_disassembler__i", None)
+        i = d(GB_STREAM[a:a + 15])
+        starts.append(a)
+        cf.append(i.type == 2)
+        a += i.length
+
+    def expected(k):
+        out = []
+        for j in range(k, len(starts)):
+            out.append(starts[j])
+            if cf[j]:
+                break
+        return out
+    ops = [("get", k) for k in range(len(starts))] + [("cut", k) for k in range(1, len(starts))] + [("insert",)]
+    for dpt in range(1, depth + 1):
+        for idx, hist in enumerate(itertools.product(ops, repeat=dpt)):
+            if idx % nshards != shard or hist[-1][0] != "get" or not any(o[0] == "get" for o in hist[:-1]):
+                continue
+            stats["histories"] += 1
+            p = amoco.load_program(GB_STREAM, cpu=cpu)
+            z = lsweep(p)
+            G = cfg.graph()
+            last = None
+            try:
+                for op in hist:
+                    if op[0] == "get":
+                        b = z.getblock(cpu.cst(starts[op[1]], 32))
+                        stats["checks"] += 1
+                        got = [i.address.v for i in b.instr] if b is not None else None
+                        if got != expected(op[1]):
+                            fails.append(Failure(("getblock", "history-dependent", "after:" + "+".join(sorted(set(o[0] for o in hist[:-1])))),
+                                                 "history %r on one lsweep object: getblock(%#x) holds %r, the maximal run is %r" % (
+                                                     list(hist), starts[op[1]], got, expected(op[1])),
+                                                 {"kind": "getblock", "hist": [list(o) for o in hist]}, rank=len(hist)).to_json())
+                            break
+                        last = b
+                    elif op[0] == "cut" and last is not None:
+                        last.cut(cpu.cst(starts[op[1]], 32))
+                    elif op[0] == "insert" and last is not None and len(last.instr) > 0:
+                        G.add_vertex(cfg.node(last))
+            except Exception:
+                pass        # raising insertions are part (b)'s business
+    return {"fails": fails, "stats": stats}
+
+
 def run(tier, seed):
     rep = Report("C18", "model_checking")
     res = core.pmap(sweep_unit, [(isa, tier) for isa in core.rotate(SWEEP_ISAS, seed)])
@@ -462,6 +526,16 @@ def run(tier, seed):
             ctot[k] += r["stats"][k]
         for f in r["fails"]:
             rep.add(Failure.from_json(f))
+    gres = core.pmap(getblock_unit, [(3 if tier == "quick" else 4, k, 16) for k in range(16)])
+    gtot = {"histories": 0, "checks": 0}
+    for r in gres:
+        for k in gtot:
+            gtot[k] += r["stats"][k]
+        for f in r["fails"]:
+            rep.add(Failure.from_json(f))
+    ctot["histories"] += gtot["histories"]
+    ctot["transitions"] += gtot["checks"]
+    ctot["getblock"] = gtot
     if ctot["nondet"]:
         rep.harness_errors.append("cfg replay nondeterminism %d" % ctot["nondet"])
     rep.failures.sort(key=lambda f: (f.rank, f.sig, json.dumps(f.case, sort_keys=True)))
@@ -477,7 +551,8 @@ def run(tier, seed):
                 "branches additionally every sequence of length 4 over {delayed branch, other control flow, plain}; (b) one x86 stream of N=%d instructions (lengths 1,2,3,1,5,2): "
                 "every history of <=%d insertions of contiguous runs (all %d runs) into cfg.graph, BFS with de-duplication on "
                 "(support, overlay, edges, inserted set); after each insertion: support nodes pairwise disjoint, extents equal block "
-                "lengths, every inserted instruction exactly once, overlay unused, fall-through edge at every split" % (N, depth, N * (N + 1) // 2),
+                "lengths, every inserted instruction exactly once, overlay unused, fall-through edge at every split; (c) every history of "
+                "getblock / cut of the returned block / graph insertion on one lsweep object: getblock(a) is the maximal run from a" % (N, depth, N * (N + 1) // 2),
         "sweep": tot, "cfg": ctot,
         "samples": [{"kind": "cfg", "hist": [[0, 3], [1, 2]]}, {"kind": "sweep", "isa": "mips", "starts": "0..63"}],
     })
@@ -490,5 +565,8 @@ def replay(case):
         addrs = [i.address.v for i in instrs] + [instrs[-1].address.v + instrs[-1].length]
         bad, st, rel = check_history(instrs, addrs, [tuple(x) for x in case["hist"]])
         return [Failure(("cfg", "rel=" + rel, bad[0]), str(bad[1]), case)] if bad else []
+    if case["kind"] == "getblock":
+        r = getblock_unit((len(case["hist"]), 0, 1))
+        return [Failure.from_json(f) for f in r["fails"] if Failure.from_json(f).case.get("hist") == case["hist"]]
     r = sweep_unit((case["isa"], "quick"))
     return [Failure.from_json(f) for f in r["fails"] if Failure.from_json(f).case.get("start") == case.get("start")]
